@@ -350,7 +350,7 @@ SctpReconfig ==
   SctpHdr \o ChunkHdr("rc") \o
   << El(Tg(g \o <<"rp">>, "rp.t", 2, 32767)), Ln(g \o <<"rp">>, "rp.l", 2, "rp.v", 1, -4),
      Fr(g \o <<"rp", "rp.v">>, "rqsn", 4), Fr(g \o <<"rp", "rp.v">>, "rssn", 4), Fr(g \o <<"rp", "rp.v">>, "lasttsn", 4),
-     Rs(g \o <<"rp", "rp.v">>, "streams") >> \o << Pd(SC \o <<"rc">>, "rc.pad", 4) >>
+     Rs(g \o <<"rp", "rp.v">>, "streams"), Pd(g \o <<"rp">>, "rp.p", 4) >> \o << Pd(SC \o <<"rc">>, "rc.pad", 4) >>
 
 SctpAbort    == SctpHdr \o ChunkHdr("abort") \o << Vr(SC \o <<"abort">>, "abort.val"), Pd(SC \o <<"abort">>, "abort.pad", 4) >>
 SctpShutdown == SctpHdr \o ChunkHdr("sd") \o << Vr(SC \o <<"sd">>, "sd.val"), Pd(SC \o <<"sd">>, "sd.pad", 4) >>
